@@ -21,7 +21,7 @@ Ext(f, k, v) == [x \in DOMAIN f \cup {k} |-> IF x = k THEN v ELSE f[x]]
 Get(f, k, d) == IF k \in DOMAIN f THEN f[k] ELSE d
 NewTx == [okKeys |-> {}, seenKeys |-> {}, cneKeys |-> {}, ops |-> <<>>, primaries |-> {}, primaryOK |-> FALSE, primaryMaybe |-> FALSE,
           commits |-> {}, mincs |-> {}, advise |-> 0, hbAfterEnd |-> 0, ended |-> FALSE, buffer |-> <<>>, hasBuffer |-> FALSE, bufPess |-> FALSE, bufAlevel |-> "off",
-          tsoAtCommit |-> 0, async |-> FALSE, onepcReqs |-> 0, prewriteReqs |-> 0, rolledBackSent |-> FALSE]
+          tsoAtCommit |-> 0, async |-> FALSE, onepcSets |-> {}, otherSets |-> {}, rolledBackSent |-> FALSE]
 T(s) == Get(tx, s, NewTx)
 Bad(rule, detail) == PrintT(<<"MISMATCH", pos, rule, detail>>)
 Check(cond, rule, detail) == IF cond THEN TRUE ELSE Bad(rule, detail)
@@ -67,13 +67,17 @@ OnPrewrite(e) ==
       t2 == [t EXCEPT !.seenKeys = @ \cup (ks \ cne), !.cneKeys = @ \cup cne, !.primaries = @ \cup {r.primary},
                       !.okKeys = IF RespOK(e) THEN @ \cup (ks \ cne) ELSE @, !.ops = @ \o r.muts,
                       !.mincs = IF RespOK(e) /\ e.resp.minc > 0 THEN @ \cup {e.resp.minc} ELSE @,
-                      !.async = @ \/ r.async, !.onepcReqs = @ + (IF r.onepc /\ e.executed THEN 1 ELSE 0),
-                      !.prewriteReqs = @ + (IF e.executed /\ e.resp.kind = "ok" THEN 1 ELSE 0)]
+                      !.async = @ \/ r.async, !.onepcSets = IF r.onepc THEN @ \cup {ks} ELSE @,
+                      !.otherSets = IF ~r.onepc THEN @ \cup {ks} ELSE @]
   IN /\ tx' = Ext(tx, s, t2)
      /\ Check(Cardinality(t2.primaries) = 1, "prewrites of one transaction name different primaries", <<s, t2.primaries>>)
      /\ Check(~t.primaryMaybe, "a prewrite is sent after the primary commit may have taken effect", s)
      /\ (r.async /\ r.primary \in ks) => Check(SetOf(r.secondaries) \cap {r.primary} = {}, "async primary lists itself as a secondary", s)
      /\ Check(r.minc = 0 \/ r.minc > s, "min-commit-ts of a prewrite is not above the start ts", <<s, r.minc>>)
+     \* one-phase commit is attempted with one prewrite request only: a request asking for it carries the same keys as every
+     \* earlier one that asked (a re-send), and no prewrite without the flag went before it (after a fall-back to two-phase
+     \* commit the flag stays off)
+     /\ r.onepc => Check(t.onepcSets \subseteq {ks} /\ t.otherSets = {}, "one-phase commit attempted together with other prewrite requests", <<s, ks, t.onepcSets, t.otherSets>>)
      \* every prewritten mutation is the one its buffer entry implies: operation, value, assertion, pessimistic action
      /\ t.hasBuffer =>
           \A i \in 1..Len(r.muts) :
@@ -97,7 +101,6 @@ OnCommit(e) ==
      /\ Check(r.commit > s, "commit ts not above start ts", <<s, r.commit>>)
      /\ Check(\A m \in t.mincs : r.commit >= m, "commit ts below a min-commit-ts returned by a prewrite", <<s, r.commit, t.mincs>>)
      /\ Check(t.tsoAtCommit = 0 \/ r.commit > t.tsoAtCommit, "commit ts does not exceed the timestamps issued before Commit was called", <<s, r.commit, t.tsoAtCommit>>)
-     /\ Check(t.onepcReqs = 0 \/ t.prewriteReqs <= 1, "one-phase commit attempted together with other prewrite requests", s)
 
 OnRollback(e) ==
   LET s == e.req.start  t == T(s)
